@@ -6,8 +6,8 @@ from props.C10 import menu_fn
 
 def c13_universe(tier):
     if tier == "thorough":
-        return dict(pids=["a", "ab", "b"], contents=[b"x", b"0123456789ab"], formats=[None, "c"], sym_dirs=True)
-    return dict(pids=["a", "ab"], contents=[b"x", b"0123456789ab"], formats=[None, "c"], sym_dirs="tied")
+        return dict(pids=[P_A, P_AB, "b"], contents=[C_ONE, C_MULTI], formats=[None, "c"], sym_dirs=True)
+    return dict(pids=[P_A, P_AB], contents=[C_ONE, C_MULTI], formats=[None, "c"], sym_dirs="tied")
 
 
 def fold(run, results, prefix):
